@@ -562,7 +562,7 @@ impl Exch {
         };
         let Some(m) = msg else {
             // nothing can arrive: window is empty
-            if n != 0 || !keep || changed {
+            if n != 0 || !keep {
                 return Err((self.k("try-read-100", "decides-on-nothing"), format!("empty input: returned {}, can_keep {}", n, keep)));
             }
             return Ok(());
@@ -571,14 +571,16 @@ impl Exch {
         let sl_end = head::find_crlf(&h, 0).unwrap() + 2;
         let bare_100 = m.status == 100 && m.fields.is_empty();
         if wl <= sl_end {
-            if n != 0 || !keep || changed {
-                return Err((self.k("try-read-100", "decides-inside-status-line"), format!("input {:?} ends inside or right after the status line but try_read_100 returned {} / can_keep {} / state changed {}", show(&window), n, keep, changed)));
+            // (a change of the object's internal state alone is not a decision: the explorer follows the
+            // new state, and whatever it leads to is judged by the oracles downstream)
+            if n != 0 || !keep {
+                return Err((self.k("try-read-100", "decides-inside-status-line"), format!("input {:?} ends inside or right after the status line but try_read_100 returned {} / can_keep {} (internal state changed: {})", show(&window), n, keep, changed)));
             }
             return Ok(());
         }
         if bare_100 {
             if wl < h.len() {
-                if n != 0 || !keep || changed {
+                if n != 0 || !keep {
                     return Err((self.k("try-read-100", "decides-on-cut-100"), format!("cut 100 response {:?}: returned {} can_keep {}", show(&window), n, keep)));
                 }
                 return Ok(());
@@ -603,8 +605,6 @@ impl Exch {
         } else if !keep {
             // decided early (the statement leaves this window range open): must be a refusal
             self.refused = true;
-        } else if changed {
-            return Err((self.k("try-read-100", "undecided-side-effect"), "undecided call changed the state".into()));
         }
         Ok(())
     }
@@ -627,8 +627,9 @@ impl Exch {
         };
         let m = &self.cfg.server[idx].msg;
         if wl < hlen {
-            if n != 0 || resp.is_some() || ready || changed {
-                return Err((self.k("try-response", "acts-on-incomplete-head"), format!("window {:?} ({} of {} head bytes): returned ({}, {}), ready {}, state changed {}", show(&window[..wl.min(60)]), wl, hlen, n, if resp.is_some() { "Some" } else { "None" }, ready, changed)));
+            // an internal state change alone (a memo, a scan offset) is followed by the explorer, not judged here
+            if n != 0 || resp.is_some() || ready {
+                return Err((self.k("try-response", "acts-on-incomplete-head"), format!("window {:?} ({} of {} head bytes): returned ({}, {}), ready {} (internal state changed: {})", show(&window[..wl.min(60)]), wl, hlen, n, if resp.is_some() { "Some" } else { "None" }, ready, changed)));
             }
             return Ok(());
         }
